@@ -263,13 +263,39 @@ fn select_on_ec_inner(case: &Value, rng: &mut SmallRng) -> Value {
 }
 
 /// One real selection.  Returns {res, touched, cmps}.
+/// Long-lived objects: a selector is a value a run keeps and applies to one population after the
+/// other (growing, shrinking, failing in between), and a generational loop refills the SAME vector
+/// (`clear()` + `extend()`: same address, often same length, other members). Half of all selections
+/// go through these instead of freshly built ones; what a selection may return is the same.
+#[derive(Default)]
+struct Registry {
+    tournaments: std::collections::HashMap<usize, Tournament>,
+    lexicases: std::collections::HashMap<usize, Lexicase>,
+    pop: Vec<Probe>,
+}
+thread_local! {
+    static REG: RefCell<Registry> = RefCell::new(Registry::default());
+}
+
 pub fn select_once(case: &Value, container: &str, rng: &mut SmallRng) -> Value {
     if container == "ec" {
         return json!({"res": select_on_ec(case, rng), "touched": [], "cmps": []});
     }
     let sel = s(&case["sel"]);
     let error_pol = case.get("pol").is_some_and(|p| p == "error");
-    let pop = make_pop(&case["pop"], error_pol);
+    let persistent = rng.random::<bool>();
+    let mut reg = if persistent { REG.with(|r| std::mem::take(&mut *r.borrow_mut())) } else { Registry::default() };
+    let pop = if persistent {
+        let mut buf = std::mem::take(&mut reg.pop);
+        if buf.capacity() < 20_000 {
+            buf.reserve(20_000);
+        }
+        buf.clear();
+        buf.extend(make_pop(&case["pop"], error_pol));
+        buf
+    } else {
+        make_pop(&case["pop"], error_pol)
+    };
     let out = guarded(|| {
         clear_logs();
         macro_rules! on_iterable {
@@ -309,7 +335,8 @@ pub fn select_once(case: &Value, container: &str, rng: &mut SmallRng) -> Value {
                 let k = case.get("k_real").map_or(u(&case["k"]), u) as usize;
                 let n = pop.len();
                 // the three ways of building a tournament of size k rotate
-                let t = match (k, rng.random_range(0..2u32)) {
+                let t = match (k, if persistent && reg.tournaments.contains_key(&k) { 9 } else { rng.random_range(0..2u32) }) {
+                    (_, 9) => reg.tournaments.remove(&k).expect("present"),
                     (1, 0) => Tournament::of_size::<1>(),
                     (2, 0) => Tournament::binary(),
                     (2, _) if n % 2 == 0 => Tournament::of_size::<2>(),
@@ -319,11 +346,20 @@ pub fn select_once(case: &Value, container: &str, rng: &mut SmallRng) -> Value {
                     (6, 0) => Tournament::of_size::<6>(),
                     _ => Tournament::new(NonZeroUsize::new(k).expect("k >= 1")),
                 };
-                on_slice!(t, |e| tsize_err(&e, k, n))
+                let r = on_slice!(&t, |e| tsize_err(&e, k, n));
+                if persistent {
+                    reg.tournaments.insert(k, t);
+                }
+                r
             }
             "lexicase" => {
-                let l = Lexicase::new(u(&case["c"]) as usize);
-                on_iterable!(l, |e: LexicaseError| lex_err(&e))
+                let c = u(&case["c"]) as usize;
+                let l = if persistent { reg.lexicases.remove(&c) } else { None }.unwrap_or_else(|| Lexicase::new(c));
+                let r = on_iterable!(&l, |e: LexicaseError| lex_err(&e));
+                if persistent {
+                    reg.lexicases.insert(c, l);
+                }
+                r
             }
             other => {
                 eprintln!("unknown selector {other}");
@@ -340,6 +376,10 @@ pub fn select_once(case: &Value, container: &str, rng: &mut SmallRng) -> Value {
         if size != pop.len() || empty != pop.is_empty() {
             res = json!({"k": "population_inconsistent", "members": pop.len(), "size": size, "is_empty": empty});
         }
+    }
+    if persistent {
+        reg.pop = pop;
+        REG.with(|r| *r.borrow_mut() = reg);
     }
     let touched: BTreeSet<usize> = IND_CMPS.with(|l| l.borrow().iter().flat_map(|(a, b)| [*a, *b]).collect());
     let cmps: Vec<Value> = RES_CMPS.with(|l| l.borrow().iter().map(|(a, b, c)| json!([a, b, c])).collect());
@@ -458,10 +498,11 @@ pub fn trace(args: &[String]) -> i32 {
     let mut out = Out::create(arg_req(args, "--out"));
     for run in first..first + runs {
         let mut rng = run_rng(seed, 0xC06, run);
-        if run % 120 == 7 {
+        if run % 120 == 7 || run % 120 == 8 || run % 120 == 9 {
             // a LARGE population whose only extreme members sit at a chosen position (first, last,
-            // around 256 / 1024): best, worst, whole-population and small tournaments
-            let n = [257usize, 1000, 1024, 1030, 1279, 4097, 5000, 8200, 16_500][rng.random_range(0..9)];
+            // around 256 / 1024): best, worst, whole-population and small tournaments; three in a row of
+            // the same size (the extreme members move)
+            let n = [257usize, 1000, 1024, 1030, 1279, 4097, 5000, 8200, 16_500][run_rng(seed, 0xC06A, run / 120).random_range(0..9)];
             let spots = [0usize, 1, 255, 256, 511, n / 2, n - 2, n - 1];
             let (hi, mut lo) = (spots[rng.random_range(0..8)].min(n - 1), spots[rng.random_range(0..8)].min(n - 1));
             if lo == hi {
